@@ -25,6 +25,15 @@ from pyvc import netmodel
 from contracts import ppcmodel as pm
 
 PROP = "C01"
+F_ZIP_ALL = "C01/zip-coefficients-scale-all-elements-of-the-bus"
+F_ZIP_NODE = "C01/zip-coefficients-per-bus-not-per-node"
+
+
+def _excl(fid):
+    return lambda ob: True if ob.meta.get("finding") == fid else None
+
+
+KNOWN_EXCLUSIONS = {F_ZIP_ALL: _excl(F_ZIP_ALL), F_ZIP_NODE: _excl(F_ZIP_NODE)}
 MIN_OBLIGATIONS = 4
 NOT_DECIDED = ["not decided: the nodal balance at ordinary buses (sum of all element results per bus against the branch flows: _sum_by_group, "
                "_get_p_q_results, the Newton mismatch), reactive power split (_update_q), DC power flow slack (C03), dcline terminals, FACTS"]
@@ -81,13 +90,16 @@ def run(vc):
         p.assume(sp.n > 0)
         act = SV(z3.Function("is_load", I, B)(sp.i))
         empties = {}
-        for n in ("motor", "sgen", "storage", "ward", "xward", "asymmetric_load", "asymmetric_sgen", "load_dc"):
+        for n in ("motor", "storage", "ward", "xward", "asymmetric_load", "asymmetric_sgen", "load_dc"):
             empties[n] = pm.table(n, {"bus": I})
             p.assume(empties[n].space.n == 0)
+        sgen = pm.table("sgen", {"bus": I, "p_mw": R, "q_mvar": R, "scaling": R})      # other elements may share the buses of the loads
+        empties["sgen"] = sgen
+        p.assume(sgen.space.n >= 0)
         bus = pm.bus_mat()
         lsp = Space.get("label:bus")
         bl = Arr(lsp, SV(z3.Function("bus_lookup", I, I)(lsp.i)))
-        net = netmodel.Net(dict({"_options": PDict({"voltage_depend_loads": True, "mode": "pf"}), "_is_elements": PDict({"load": Arr(sp, act)}),
+        net = netmodel.Net(dict({"_options": PDict({"voltage_depend_loads": True, "mode": "pf"}), "_is_elements": PDict({"load": Arr(sp, act), "sgen": Arr(sgen.space, SV(z3.Function("is_sgen", I, B)(sgen.space.i)))}),
                                  "_pd2ppc_lookups": PDict({"bus": bl, "bus_dc": Opaque("bus_dc")}), "load": load}, **empties), strict=True)
 
         class GK:
@@ -113,6 +125,11 @@ def run(vc):
         beta = z3.Const(f"member@set[load,{_key(to_z(c['bus']))}]", I)
         at_bus = z3.And(to_z(c["bus"], I) == beta, act.z)
         row = z3.substitute(to_z(bl.e, I), (lsp.i, beta))
+        beta2 = z3.Int("another_load_bus")
+        row2 = z3.substitute(to_z(bl.e, I), (lsp.i, beta2))
+        p.prove("zip:coefficients-are-kept-per-node", z3.Implies(row2 == row, beta2 == beta), meta=dict(part="zip-node", finding=F_ZIP_NODE),
+                note="the coefficients are written once per pandapower bus into the row of its node: two buses with loads that are one node "
+                     "(bus-bus switch) overwrite each other")
         gs = getattr(bus, "group_stores", {})
         p.prove("zip:bus-load-is-written", iu.PD in gs and iu.QD in gs, meta=dict(part="zip-structure"))
         if iu.PD not in gs:
@@ -122,7 +139,12 @@ def run(vc):
             keys, val = gs[PDc]
             # bus load = sum of the powers handed to _sum_by_group for the rows whose (looked-up) bus is this bus
             parts = val[2].parts if hasattr(val[2], "parts") else [val[2]]
-            p.prove(f"zip:{tag}:one-source-table", len(parts) == 1 and isinstance(parts[0], Arr) and parts[0].space is sp, meta=dict(part="zip-structure"))
+            p.prove(f"zip:{tag}:the-bus-load-scaled-by-the-coefficients-consists-of-the-loads-only",
+                    len(parts) == 1 and isinstance(parts[0], Arr) and parts[0].space is sp, meta=dict(part="zip-node", finding=F_ZIP_ALL),
+                    note="PD * (cp + ci v + cz v^2) applies the loads' coefficients to everything summed into PD: with an sgen / storage at the "
+                         "bus the coefficients would have to be relative to the total")
+            if not (parts and isinstance(parts[0], Arr) and parts[0].space is sp):
+                continue
             pe = parts[0].e
             PDsum = to_z(sigma(p.it, Arr(sp, pe, at_bus)), R)
             own = to_z(c[qcol]) * z3.If(act.z, 1.0, 0.0) * to_z(c["scaling"])
@@ -135,7 +157,46 @@ def run(vc):
                 p.prove(f"zip:{tag}:{nm}-weighted", z3.Implies(total != 0, PDsum * to_z(coeff, R) == rhs), meta=dict(part="zip"),
                         note=f"PD_bus * {nm}_bus == sum over the bus's loads of p_l * {nm}_l (so the bus ZIP load is the sum of the loads' ZIP terms)")
     vc.explore("_calc_pq_elements_and_add_on_ppc[zip]", h_zip, max_paths=200)
+
+    def h_busload(p):
+        """PD / QD of a node are the sums over the elements whose bus maps to the node (node-indexed contract of _sum_by_group)"""
+        from contracts.groupsum import node_sum_by_group
+        tabs = {n: pm.table(n, {"bus": I, "p_mw": R, "q_mvar": R, "scaling": R}) for n in ("load", "sgen", "storage")}
+        act = {n: SV(z3.Function(f"is_{n}", I, B)(tabs[n].space.i)) for n in tabs}
+        empties = {}
+        for n in ("motor", "ward", "xward", "asymmetric_load", "asymmetric_sgen", "load_dc"):
+            empties[n] = pm.table(n, {"bus": I})
+            p.assume(empties[n].space.n == 0)
+        bus = pm.bus_mat()
+        nsp = bus.segments["all"]
+        for col in (iu.PD, iu.QD):
+            bus.cols[("all", col)] = 0.0            # ppc['bus'] is created by np.zeros
+        lsp = Space.get("label:bus")
+        bl = Arr(lsp, SV(z3.Function("bus_lookup", I, I)(lsp.i)))     # several buses may map to one node
+        net = netmodel.Net(dict({"_options": PDict({"voltage_depend_loads": False, "mode": "pf"}),
+                                 "_is_elements": PDict({k: Arr(tabs[k].space, act[k]) for k in tabs}),
+                                 "_pd2ppc_lookups": PDict({"bus": bl, "bus_dc": Opaque("bus_dc")})}, **tabs, **empties), strict=True)
+        summ = node_sum_by_group(nsp)
+        p.it.summaries["pandapower.auxiliary:_sum_by_group"] = summ
+        me = p.it.modenv(BBU)
+        if me.has("_sum_by_group"):
+            me.vals["_sum_by_group"] = Native(summ, name="_sum_by_group")
+        out = p.call(f"{BBU}:_calc_pq_elements_and_add_on_ppc", net, PDict({"bus": bus}))
+        if out.raised:
+            raise EngineError(f"_calc_pq_elements_and_add_on_ppc raised {out.exc!r}")
+        nu = nsp.i
+        for PDc, qcol, tag in ((iu.PD, "p_mw", "p"), (iu.QD, "q_mvar", "q")):
+            total = z3.RealVal(0)
+            for name, sign in (("load", 1), ("sgen", -1), ("storage", 1)):
+                t = tabs[name]
+                node = z3.substitute(to_z(bl.e, I), (lsp.i, to_z(t.cols["bus"], I)))
+                own = sign * to_z(t.cols[qcol], R) * z3.If(act[name].z, 1.0, 0.0) * to_z(t.cols["scaling"], R)
+                total = total + to_z(sigma(p.it, Arr(t.space, SV(own), node == nu)), R)
+            p.prove(f"bus-load:{tag}", to_z(bus.get("all", PDc), R) == total, meta=dict(part="bus-load"),
+                    note="PD (QD) of a node = sum over the in-service loads, sgens (negative) and storages whose bus maps to the node of p * scaling")
+    vc.explore("_calc_pq_elements_and_add_on_ppc[bus load]", h_busload, max_paths=200)
     run_pfsoln_choice(vc)
+    run_local_load(vc)
 
 
 class _Fn:
@@ -178,16 +239,93 @@ def run_pfsoln_choice(vc):
     vc.explore("_get_numba_functions", h, max_paths=40)
 
 
+def run_local_load(vc):
+    """_update_q / _update_p (result routines of every AC power flow): what a machine at a bus reports is the power the network takes from
+    the bus plus the load at that bus *at the solved voltage* -- for a bus with voltage dependent loads PD * (cp + ci v + cz v^2), not the
+    rated PD -- otherwise the machine's result and the loads' results (which follow the ZIP law, C04) do not balance with the branch flows."""
+    PS = "pandapower.pypower.pfsoln"
+    ig, iu = consts("pandapower.pypower.idx_gen"), consts("pandapower.pypower.idx_bus")
+
+    def zip_load(bus, node, p_it, which):
+        col = (iu.PD, iu.CID_P, iu.CZD_P) if which == "p" else (iu.QD, iu.CID_Q, iu.CZD_Q)
+        at = lambda c: to_z(bus.row_of(None, SV(node), c, p_it), R)
+        v = at(iu.VM)
+        return at(col[0]) * ((1 - at(col[1]) - at(col[2])) + at(col[1]) * v + at(col[2]) * v * v)
+
+    def bus_with_zip():
+        bus = pm.bus_mat()
+        for c in (iu.PD, iu.QD, iu.VM, iu.CID_P, iu.CZD_P, iu.CID_Q, iu.CZD_Q):
+            pm.colfun(bus, "all", c)
+        return bus
+
+    def h_q(p):
+        gsp = Space.get("ppcgen")
+        gen = Mat("gen", {"all": gsp})
+        for c in (ig.QG, ig.QMIN, ig.QMAX):
+            pm.colfun(gen, "all", c)
+        bus = bus_with_zip()
+        osp = Space.get("on")
+        p.assume(osp.n == 1)                   # one running machine (several machines share the bus total: not decided here)
+        on = Arr(osp, SV(z3.Function("on_idx", I, I)(osp.i)))
+        gbus = Arr(osp, SV(z3.Function("gbus", I, I)(osp.i)))
+        sb = Arr(osp, CV(SV(z3.Function("Sbus.re", I, R)(osp.i)), SV(z3.Function("Sbus.im", I, R)(osp.i))))
+        base = SV(z3.Real("baseMVA"))
+        out = p.call(f"{PS}:_update_q", base, bus, gen, gbus, sb, on)
+        if out.raised:
+            raise EngineError(f"_update_q raised {out.exc!r}")
+        qg = gen.row_of(osp, on.e, ig.QG, p.it)
+        want = to_z(sb.e.im, R) * base.z + zip_load(bus, to_z(gbus.e, I), p.it, "q")
+        p.prove("local-load:q of the machine = network injection + load of its bus at the solved voltage", to_z(qg, R) == want, meta=dict(part="local-load"))
+    vc.explore("_update_q[local load]", h_q, max_paths=20)
+
+    def h_p(p):
+        gen = Mat("gen", {"all": Space.get("ppcgen")})
+        bus = bus_with_zip()
+        rsp = Space.get("ref")
+        ref = Arr(rsp, SV(z3.Function("ref_bus", I, I)(rsp.i)))
+        nsp = bus.segments["all"]
+        sb = Arr(nsp, CV(SV(z3.Function("Sbus.re", I, R)(nsp.i)), SV(z3.Function("Sbus.im", I, R)(nsp.i))))
+        base = SV(z3.Real("baseMVA"))
+        got = []
+        me = p.it.modenv(PS)
+        me.vals["_split_p_for_gens_at_same_bus"] = Native(lambda it, gen, p_bus, gens_at_bus, ref_gens: got.append(p_bus), name="_split_p", pure=False)
+        gsp2 = Space.get("gens_at_bus")
+        me.vals["find"] = Native(lambda it, m: Arr(gsp2, SV(z3.Function("gens_at_bus", I, I)(gsp2.i))), name="find")
+        p.assume(gsp2.n >= 1)
+        gbus = Arr(Space.get("on"), SV(z3.Function("gbus", I, I)(Space.get("on").i)))
+        out = p.call(f"{PS}:_update_p", base, bus, gen, ref, gbus, sb, Opaque("ref_gens"))
+        if out.raised:
+            raise EngineError(f"_update_p raised {out.exc!r}")
+        p.prove("local-load:p: the bus power of a reference bus is handed to the split once", len(got) == 1, meta=dict(part="local-load"))
+        if len(got) != 1:
+            return
+        node = to_z(ref.e, I)
+        want = z3.substitute(to_z(sb.e.re, R), (nsp.i, node)) * base.z + zip_load(bus, node, p.it, "p")
+        p.prove("local-load:p of the reference machines = network injection + load of the bus at the solved voltage", to_z(got[0], R) == want,
+                meta=dict(part="local-load"))
+    vc.explore("_update_p[local load]", h_p, max_paths=20)
+
+
 def classify(ob, model):
     return ob.meta.get("part", "")
 
 
 def replay(ob, model, finding=None):
+    if ob.meta.get("part") == "local-load":
+        return {"script": f"# replay of {ob.id}\nfrom replaylib.nodal import main_zip_machines\nmain_zip_machines()\n",
+                "description": "voltage dependent loads at the buses of an ext_grid (1.05 pu) and of a gen (1.04 pu), and next to an sgen: nodal balance"}
     if ob.meta.get("part") == "pfsoln-choice":
         return {"script": f"# replay of {ob.id}\nfrom replaylib.nodal import main_single_slack\nmain_single_slack()\n",
                 "description": "single ext_grid networks with shunt-type elements whose rated powers cancel in total: nodal balance at every bus"}
+    if ob.meta.get("finding") == F_ZIP_ALL or finding == F_ZIP_ALL:
+        return {"script": f"# replay of {ob.id}\nfrom replaylib.nodal import main_zip_sgen\nmain_zip_sgen()\n",
+                "description": "a constant-impedance load and an sgen at one bus: nodal balance"}
+    if ob.meta.get("finding") == F_ZIP_NODE or finding == F_ZIP_NODE:
+        return {"script": f"# replay of {ob.id}\nfrom replaylib.nodal import main_zip_fused\nmain_zip_fused()\n",
+                "description": "a constant-impedance load and a constant-power load on two busbar sections fused by a bus-bus switch: nodal balance"}
     if ob.meta.get("part") in ("zip", "zip-structure"):
-        return {"script": f"# replay of {ob.id}\nfrom replaylib.nodal import main_zip\nmain_zip()\n",
-                "description": "bus with a constant-impedance load and a constant-power load of different size: nodal balance"}
+        return {"script": f"# replay of {ob.id}\nfrom replaylib.nodal import main_zip_all\nmain_zip_all()\n",
+                "description": "buses with constant-impedance and constant-power loads of different size, next to an sgen, on fused busbar sections: "
+                               "nodal balance"}
     return {"script": f"# replay of {ob.id}\nfrom replaylib.nodal import main\nmain()\n",
             "description": "nodal balance at every bus of networks with several machines at the slack bus (slack weights zero / positive), loads, sgens"}
